@@ -187,7 +187,8 @@ Props == <<
   %s >>
 RunInit == Init /\\ bad = {}
 \\* (the first failing line of a formula in an episode is enough: a formula that stays false must not make the set grow with every line)
-RunNext == Next /\\ bad' = bad \\cup {<<Props'[i][1], hdr'.ep, l>> : i \\in {k \\in DOMAIN Props' : ~(Props'[k][2]) /\\ ~\\E b \\in bad : b[1] = Props'[k][1] /\\ b[2] = hdr'.ep}}
+RunNext == Next /\\ bad' = (IF hdr'.ep # hdr.ep THEN {} ELSE bad) \\cup {<<Props'[i][1], hdr'.ep, l>> : i \\in {k \\in DOMAIN Props' : ~(Props'[k][2]) /\\ ~\\E b \\in bad : b[1] = Props'[k][1] /\\ b[2] = hdr'.ep}}
+           /\\ (hdr'.ep # hdr.ep /\\ bad # {} => PrintT(<<"VERIF-BAD", bad>>))      \\* (reported and forgotten at the end of the episode: the set stays small)
 RunSpec == RunInit /\\ [][RunNext]_<<vars, bad>>
 Report == l <= Len(Trace) \\/ PrintT(<<"VERIF-BAD", bad>>)
 Consumed == TLCGet("stats").diameter - 1 = Len(Trace)
